@@ -466,7 +466,96 @@ fn utf8(lines: &[String]) -> (usize, Vec<Value>) {
     (lines.len(), failures)
 }
 
+/// impl -> spec: random enabled operations (slices and cells interleaved) on u64 elements, every event with the whole
+/// projection observed after it (Trace_Views.tla)
+fn trace(out: &str, seed: u64, events: usize) {
+    let mut log = vkit::NdJson::create(out);
+    let mut rng = vkit::rng::Rng::new(seed);
+    let mut emitted = 0;
+    while emitted < events {
+        let mut w = World::<u64>::new();
+        log.emit(&json!({"op":"reset"}));
+        emitted += 1;
+        for _ in 0..(20 + rng.below(80)) {
+            if payload::next_id() > 110 {
+                break;
+            }
+            let p = w.proj();
+            let n = p["mem"].as_array().unwrap().len();
+            let (vform, vmut, vlen) = (p["view"]["form"].as_str().unwrap().to_string(), p["view"]["mut"].as_bool().unwrap(), p["view"]["len"].as_u64().unwrap() as usize);
+            let (shape, cform, nids) = (p["cell"]["shape"].as_str().unwrap().to_string(), p["cell"]["form"].as_str().unwrap().to_string(), p["cell"]["ids"].as_array().unwrap().len());
+            let mut cand: Vec<Value> = vec![json!({"op":"NewBuf","n":rng.below(7)})];
+            let off = rng.below(n + 1);
+            cand.push(json!({"op":"MakeView","off":off,"len":rng.below(n - off + 1),"mut":rng.chance(1, 2)}));
+            cand.push(json!({"op":"MakeView","off":0,"len":n,"mut":rng.chance(1, 2)}));
+            if vform == "c" {
+                for h in ["as_slice", "deref", "into_slice"] {
+                    cand.push(json!({"op":"Convert","how":h}));
+                }
+                if vmut {
+                    for h in ["mut_to_ref", "reborrow", "as_slice_mut", "into_mut_slice"] {
+                        cand.push(json!({"op":"Convert","how":h}));
+                    }
+                }
+            }
+            if vform == "rust" {
+                cand.push(json!({"op":"Convert","how":"to_c"}));
+                cand.push(json!({"op":"Convert","how":"to_c"}));
+            }
+            if vform != "none" && vmut && vlen > 0 {
+                for _ in 0..3 {
+                    cand.push(json!({"op":"WriteThrough","k":rng.below(vlen),"v":50 + rng.below(200)}));
+                }
+            }
+            cand.push(match rng.below(3) {
+                0 => json!({"op":"NewCell","shape":"opt","tag":rng.below(2)}),
+                1 => json!({"op":"NewCell","shape":"res","tag":rng.below(2)}),
+                _ => json!({"op":"NewCell","shape":"tup","tag":1 + rng.below(4)}),
+            });
+            if shape != "none" {
+                cand.push(json!({"op":"Flip"}));
+                cand.push(json!({"op":"Flip"}));
+                cand.push(json!({"op":"DropCell"}));
+                if cform == "c" && shape == "opt" {
+                    cand.push(json!({"op":"TakeOpt"}));
+                }
+                if cform == "c" && shape == "res" {
+                    cand.push(json!({"op":"ResOk"}));
+                }
+                if cform == "c" && (shape == "opt" || shape == "res") && nids == 1 {
+                    cand.push(json!({"op":"ReplaceMut"}));
+                }
+            }
+            if rng.chance(1, 8) {
+                cand.push(json!({"op":"DefaultOpt"}));
+            }
+            let e = rng.pick(&cand).clone();
+            w.apply(&e);
+            let mut pj = w.proj();
+            let aligned = pj["view"]["aligned"] == json!(true);
+            pj["view"].as_object_mut().unwrap().remove("aligned");
+            let mut ev = e.clone();
+            ev.as_object_mut().unwrap().insert("proj".into(), pj);
+            log.emit(&ev);
+            emitted += 1;
+            if !aligned {
+                log.emit(&json!({"op":"quiescent","ok":false,"msg":"view address is not element-aligned inside the buffer"}));
+                emitted += 1;
+            }
+        }
+        let td = w.teardown();
+        log.emit(&json!({"op":"quiescent","ok": td.is_none(), "msg": td.unwrap_or_default()}));
+        emitted += 1;
+    }
+    log.flush();
+    println!("{}", json!({"summary":"trace","events":emitted}));
+}
+
 pub fn main(args: &[String]) {
+    if args[0] == "trace" {
+        let geti = |f: &str, d: usize| vkit::arg_after(args, f).map(|s| s.parse().unwrap()).unwrap_or(d);
+        return trace(&args[1], geti("--seed", 1) as u64, geti("--events", 1000));
+    }
     let mode = args[0].as_str();
     let path = args.get(1).cloned().unwrap_or_default();
     let elem = vkit::arg_after(args, "--elem").unwrap_or_else(|| "u8".into());
